@@ -8,7 +8,7 @@
 From Coq Require Import List Arith NArith Bool Lia ZifyBool ZifyN ZifyNat.
 Import ListNotations.
 Require Import PyStr Regex Regexes NumLit DataRead TextWrap Writer.
-Require Import RegexSubFacts SplitWsFacts TextWrapProofs DataReadProofs.
+Require Import RegexSubFacts RegexLocalFacts SplitWsFacts TextWrapProofs DataReadProofs.
 Open Scope list_scope.
 
 (* ======================================================================================= *)
@@ -374,6 +374,47 @@ Proof.
   rewrite is_data_lineb_clean, H, split_ws_strip, Hf, Hc, Nat.eqb_refl. apply orb_true_r.
 Qed.
 
+(* ---- the same asked of the tokens only ------------------------------------------------------ *)
+Definition clean_tokb (t : list N) : bool :=
+  negb (in_str 35 t) && negb (in_str 34 t) && negb (in_str 39 t) && negb (in_str 26 t)
+  && nomatchb rx_sub_comma [] t && nomatchb rx_sub_runon_minus [] t && nomatchb rx_sub_runon_dot [] t.
+
+(* the three substitution patterns of the source as translated today: classes of non-space
+   characters only, no look-around, no anchor; none matches the empty string *)
+Lemma subs_are_local :
+  (re_local rx_sub_comma = true /\ nomatchb rx_sub_comma [] [] = true) /\ (re_local rx_sub_runon_minus = true /\ nomatchb rx_sub_runon_minus [] [] = true) /\ (re_local rx_sub_runon_dot = true /\ nomatchb rx_sub_runon_dot [] [] = true).
+Proof. repeat split; vm_compute; reflexivity. Qed.
+
+Lemma clean_tok_facts t : clean_tokb t = true ->
+  in_str 35 t = false /\ in_str 34 t = false /\ in_str 39 t = false /\ in_str 26 t = false /\ nomatchb rx_sub_comma [] t = true /\ nomatchb rx_sub_runon_minus [] t = true /\ nomatchb rx_sub_runon_dot [] t = true.
+Proof.
+  unfold clean_tokb. intros D. repeat (apply andb_true_iff in D as [D ?]).
+  repeat match goal with Hn : negb _ = true |- _ => apply negb_true_iff in Hn end.
+  repeat split; assumption.
+Qed.
+
+(* a line is clean as soon as its str.split() fields are: white space carries none of the
+   excluded characters and no substitution pattern can match across it *)
+Theorem clean_line_of_tokens raw :
+  Forall (fun t => clean_tokb t = true) (split_ws raw) -> clean_lineb raw = true.
+Proof.
+  intros H. rewrite Forall_forall in H.
+  assert (Hf : forall t, In t (split_ws raw) -> _) by (intros t Ht; exact (clean_tok_facts t (H t Ht))).
+  destruct subs_are_local as ((L1 & N1) & (L2 & N2) & (L3 & N3)).
+  unfold clean_lineb.
+  rewrite (in_str_tokens 35 raw eq_refl) by (intros t Ht; apply (Hf t Ht)).
+  rewrite (in_str_tokens 34 raw eq_refl) by (intros t Ht; apply (Hf t Ht)).
+  rewrite (in_str_tokens 39 raw eq_refl) by (intros t Ht; apply (Hf t Ht)).
+  rewrite (in_str_tokens 26 raw eq_refl) by (intros t Ht; apply (Hf t Ht)).
+  rewrite (nomatch_tokens rx_sub_comma (strip raw) L1 N1)
+    by (rewrite split_ws_strip; intros t Ht; apply (Hf t Ht)).
+  rewrite (nomatch_tokens rx_sub_runon_minus (strip raw) L2 N2)
+    by (rewrite split_ws_strip; intros t Ht; apply (Hf t Ht)).
+  rewrite (nomatch_tokens rx_sub_runon_dot (strip raw) L3 N3)
+    by (rewrite split_ws_strip; intros t Ht; apply (Hf t Ht)).
+  reflexivity.
+Qed.
+
 Section Read.
 Variable fhex : list N -> option (list N).
 Variable fstr : list N -> list N.
@@ -555,6 +596,70 @@ Proof.
   - apply cols_of_length.
   - intros j Hj. split; [apply cols_of_nth; exact Hj|].
     unfold cols. rewrite cols_of_nth by exact Hj. rewrite map_length. unfold T, tok_matrix. apply map_length.
+Qed.
+
+(* ---- the same with hypotheses on the tokens only ---------------------------------------------- *)
+Definition wr_tok (t : list N) : Prop := num_tok t /\ clean_tokb t = true.
+Definition wr_tokb (t : list N) : bool := num_tokb t && clean_tokb t.
+
+Lemma wr_tok_matrixb (T : list (list (list N))) :
+  forallb (forallb wr_tokb) T = true -> Forall (Forall wr_tok) T.
+Proof.
+  intros H. apply Forall_forall. intros r Hr. apply Forall_forall. intros t Ht.
+  rewrite forallb_forall in H. specialize (H r Hr). rewrite forallb_forall in H.
+  specialize (H t Ht). unfold wr_tokb in H. apply andb_true_iff in H as [H1 H2].
+  split; [apply num_tokb_sound; exact H1|exact H2].
+Qed.
+
+Lemma matrix_tokens_clean (T : list (list (list N))) (lines : list (list N)) :
+  map split_ws lines = T -> Forall (Forall wr_tok) T ->
+  forall l t, In l lines -> In t (split_ws l) -> clean_tokb t = true.
+Proof.
+  intros E H l t Hl Ht. rewrite Forall_forall in H.
+  assert (Hr : In (split_ws l) T) by (rewrite <- E; apply in_map; exact Hl).
+  specialize (H _ Hr). rewrite Forall_forall in H. apply (H t Ht).
+Qed.
+
+Theorem data_roundtrip_tokens o nt subs rows c rts eol :
+  (0 < c)%nat -> rows <> [] ->
+  Forall (fun row : list cell => List.length row = c) rows ->
+  let T := tok_matrix fmtv o nt rows in
+  Forall (Forall wr_tok) T ->
+  forallb is_space (wo_lhs_spacer o) = true -> forallb is_space (wo_spacer o) = true ->
+  Forall (separated fmt_pi o) T ->
+  forallb is_space eol = true ->
+  opt_all (map (row_text fmtv fmt_pi o (Some nt) 0) rows) = Some rts ->
+  let cols := cols_of fhex c T in
+  let body := map (fun l => l ++ eol) rts in
+  (numpy_engine fhex body = Some cols /\
+   normal_engine fhex fstr DSpace subs c body = DOk cols /\
+   fst (inspect_twice DSpace body subs) = Some c) /\
+  (forall w, normal_engine fhex fstr DSpace subs c
+               (map (fun l => l ++ eol) (flat_map (wrap w) rts)) = DOk cols) /\
+  List.length cols = c /\
+  forall j, (j < c)%nat ->
+    nth j cols [] = map (fun toks => mk_num fhex (nth j toks [])) T /\
+    List.length (nth j cols []) = List.length rows.
+Proof.
+  intros Hc Hne Hshape T Hwr Hl Hs Hsep Heol Hrts cols body.
+  assert (Hnum : Forall (Forall num_tok) T).
+  { eapply Forall_impl; [|exact Hwr]. intros r Hr. eapply Forall_impl; [|exact Hr]. intros t [Ht _]. exact Ht. }
+  assert (Hgood : Forall (Forall good_tok) T).
+  { eapply Forall_impl; [|exact Hnum]. intros r Hr. eapply Forall_impl; [|exact Hr]. intros t [Ht _]. exact Ht. }
+  pose proof (lines_tokens fmtv fmt_pi o nt rows rts Hgood Hl Hs Hsep Hrts) as Htok. fold T in Htok.
+  destruct (data_roundtrip o nt subs rows c rts eol Hc Hne Hshape Hnum Hl Hs Hsep Heol Hrts)
+    as (Hun & Hwrap & Hrest).
+  split; [|split; [|exact Hrest]].
+  - apply Hun. apply Forall_forall. intros raw Hin.
+    apply in_map_iff in Hin as (l & <- & Hlin). apply clean_line_of_tokens.
+    rewrite split_ws_app_trailing by exact Heol. apply Forall_forall. intros t Ht.
+    apply (matrix_tokens_clean T rts Htok Hwr l t Hlin Ht).
+  - intros w. apply Hwrap. apply Forall_forall. intros raw Hin.
+    apply in_map_iff in Hin as (wl & <- & Hwl). apply in_flat_map in Hwl as (l & Hlin & Hwl).
+    apply clean_line_of_tokens. rewrite split_ws_app_trailing by exact Heol.
+    apply Forall_forall. intros t Ht.
+    apply (matrix_tokens_clean T rts Htok Hwr l t Hlin).
+    rewrite <- (wrap_tokens w l). apply in_flat_map. exists wl. split; assumption.
 Qed.
 
 End RoundTrip.
